@@ -580,5 +580,383 @@ theorem lenInv_eraseEdge (k : Kernel) (h : Nat) (hi : LenInv k) : LenInv (k.eras
     phf := by simp only [edgeDeleted, nHF]; rw [hfaces]; exact hi.phf
     pc := by simpa [edgeDeleted, nC] using hi.pc }
 
+theorem lenInv_eraseVertex (k : Kernel) (h : Nat) (hi : LenInv k) (hh : h < k.nV) : LenInv (k.eraseVertex h) := by
+  unfold eraseVertex
+  have hedges : (if k.vBU = true then k.shiftVertsBU h
+      else k.liveEdges.foldl (fun ed e => ed.modify e (fun p => (corr1 h p.1, corr1 h p.2))) k.edges).length = k.edges.length := by
+    split
+    · unfold shiftVertsBU
+      apply foldl_length_inv
+      intro l x
+      exact foldl_length_inv _ (by intro l' y; simp) _ _
+    · simp [length_foldl_modify_gen]
+  exact {
+    vDel := by simp [List.length_eraseIdx, hi.vDel, hh]
+    eDel := by simp only [nE]; rw [hedges]; exact hi.eDel
+    fDel := by simpa [nF] using hi.fDel
+    cDel := by simpa [nC] using hi.cDel
+    outHes := by
+      intro hb; simp only at hb
+      simp [hb, List.length_eraseIdx, hi.outHes hb, hh]
+    incHfs := by intro hb; simp only at hb; simp only [nHE]; rw [hedges]; exact hi.incHfs hb
+    incCell := by simpa [nHF] using hi.incCell
+    pv := by simpa [vertexDeleted] using colsLen_erase k.props.v k.nV h hi.pv hh
+    pe := by simp only [vertexDeleted, nE]; rw [hedges]; exact hi.pe
+    phe := by simp only [vertexDeleted, nHE]; rw [hedges]; exact hi.phe
+    pf := by simpa [vertexDeleted, nF] using hi.pf
+    phf := by simpa [vertexDeleted, nHF] using hi.phf
+    pc := by simpa [vertexDeleted, nC] using hi.pc }
+
+/-! ### the four cores -/
+theorem lenInv_deleteCellCore (k : Kernel) (h : Nat) (hi : LenInv k) : LenInv (k.deleteCellCore h) := by
+  unfold deleteCellCore
+  simp only []
+  split
+  · split
+    · exact lenInv_flagCell _ _ (lenInv_unlinkCell _ _ (lenInv_swapCell _ _ _ hi))
+    · exact lenInv_eraseCell _ _ (lenInv_unlinkCell _ _ (lenInv_swapCell _ _ _ hi))
+  · split
+    · exact lenInv_flagCell _ _ (lenInv_unlinkCell _ _ hi)
+    · exact lenInv_eraseCell _ _ (lenInv_unlinkCell _ _ hi)
+
+theorem lenInv_deleteFaceCore (k : Kernel) (h : Nat) (hi : LenInv k) : LenInv (k.deleteFaceCore h) := by
+  unfold deleteFaceCore
+  simp only []
+  split
+  · split
+    · exact lenInv_flagFace _ _ (lenInv_unlinkFace _ _ (lenInv_swapFace _ _ _ hi))
+    · exact lenInv_eraseFace _ _ (lenInv_unlinkFace _ _ (lenInv_swapFace _ _ _ hi))
+  · split
+    · exact lenInv_flagFace _ _ (lenInv_unlinkFace _ _ hi)
+    · exact lenInv_eraseFace _ _ (lenInv_unlinkFace _ _ hi)
+
+theorem lenInv_deleteEdgeCore (k : Kernel) (h : Nat) (hi : LenInv k) : LenInv (k.deleteEdgeCore h) := by
+  unfold deleteEdgeCore
+  simp only []
+  split
+  · split
+    · exact lenInv_flagEdge _ _ (lenInv_unlinkEdge _ _ (lenInv_swapEdge _ _ _ hi))
+    · exact lenInv_eraseEdge _ _ (lenInv_unlinkEdge _ _ (lenInv_swapEdge _ _ _ hi))
+  · split
+    · exact lenInv_flagEdge _ _ (lenInv_unlinkEdge _ _ hi)
+    · exact lenInv_eraseEdge _ _ (lenInv_unlinkEdge _ _ hi)
+
+theorem lenInv_deleteVertexCore (k : Kernel) (h : Nat) (hi : LenInv k) (hh : h < k.nV) :
+    LenInv (k.deleteVertexCore h) := by
+  unfold deleteVertexCore
+  simp only []
+  split
+  · split
+    · exact lenInv_flagVertex _ _ (lenInv_swapVertex _ _ _ hi)
+    · exact lenInv_eraseVertex _ _ (lenInv_swapVertex _ _ _ hi) (by simp; omega)
+  · split
+    · exact lenInv_flagVertex _ _ hi
+    · exact lenInv_eraseVertex _ _ hi hh
+
+/-- the vertex count after `delete_vertex_core`: unchanged (deferred) or one less -/
+theorem deleteVertexCore_nV (k : Kernel) (h : Nat) :
+    (k.deleteVertexCore h).nV = if k.deferred then k.nV else k.nV - 1 := by
+  unfold deleteVertexCore
+  simp only []
+  cases hd : k.deferred <;> cases hf : k.fast <;> simp [hd, hf]
+
+theorem foldl_lenInv (core : Kernel → Nat → Kernel) (hc : ∀ k h, LenInv k → LenInv (core k h))
+    (xs : List Nat) (k : Kernel) (hi : LenInv k) : LenInv (xs.foldl core k) := by
+  induction xs generalizing k with
+  | nil => exact hi
+  | cons x t ih => simp only [List.foldl_cons]; exact ih _ (hc k x hi)
+
+theorem foldl_nV (core : Kernel → Nat → Kernel) (hc : ∀ k h, (core k h).nV = k.nV)
+    (xs : List Nat) (k : Kernel) : (xs.foldl core k).nV = k.nV := by
+  induction xs generalizing k with
+  | nil => rfl
+  | cons x t ih => simp only [List.foldl_cons]; rw [ih, hc]
+
+section nVframes
+variable (k : Kernel) (h : Nat)
+theorem deleteCellCore_nV : (k.deleteCellCore h).nV = k.nV := by unfold deleteCellCore; frame_tac
+theorem deleteFaceCore_nV : (k.deleteFaceCore h).nV = k.nV := by unfold deleteFaceCore; frame_tac
+theorem deleteEdgeCore_nV : (k.deleteEdgeCore h).nV = k.nV := by unfold deleteEdgeCore; frame_tac
+end nVframes
+
+theorem lenInv_deleteCell (k : Kernel) (c : Nat) (hi : LenInv k) : LenInv (k.deleteCell c) :=
+  lenInv_deleteCellCore k c hi
+
+theorem lenInv_deleteFace (k : Kernel) (f : Nat) (hi : LenInv k) : LenInv (k.deleteFace f) := by
+  unfold deleteFace
+  exact lenInv_deleteFaceCore _ _ (foldl_lenInv _ lenInv_deleteCellCore _ _ hi)
+
+theorem lenInv_deleteEdge (k : Kernel) (e : Nat) (hi : LenInv k) : LenInv (k.deleteEdge e) := by
+  unfold deleteEdge
+  exact lenInv_deleteEdgeCore _ _ (foldl_lenInv _ lenInv_deleteFaceCore _ _ (foldl_lenInv _ lenInv_deleteCellCore _ _ hi))
+
+theorem lenInv_deleteVertex (k : Kernel) (v : Nat) (hi : LenInv k) (hv : v < k.nV) : LenInv (k.deleteVertex v) := by
+  unfold deleteVertex
+  apply lenInv_deleteVertexCore
+  · exact foldl_lenInv _ lenInv_deleteEdgeCore _ _ (foldl_lenInv _ lenInv_deleteFaceCore _ _ (foldl_lenInv _ lenInv_deleteCellCore _ _ hi))
+  · rw [foldl_nV _ deleteEdgeCore_nV, foldl_nV _ deleteFaceCore_nV, foldl_nV _ deleteCellCore_nV]; exact hv
+
+/-! ### garbage collection -/
+theorem lenInv_congr_counters (k : Kernel) (a b c d : Nat) (df : Bool) (hi : LenInv k) :
+    LenInv { k with nDelV := a, nDelE := b, nDelF := c, nDelC := d, deferred := df } :=
+  lenInv_of_shape k _ hi rfl rfl rfl rfl rfl rfl rfl rfl rfl rfl rfl rfl rfl rfl rfl
+
+theorem gcSweep_lenInv (isDel : Kernel → Nat → Bool) (unflag core : Kernel → Nat → Kernel)
+    (hu : ∀ k i, LenInv k → LenInv (unflag k i)) (hc : ∀ k i, LenInv k → LenInv (core k i))
+    (k : Kernel) (n : Nat) (hi : LenInv k) : LenInv (gcSweep k n isDel unflag core) := by
+  unfold gcSweep
+  generalize (List.range n).reverse = xs
+  induction xs generalizing k with
+  | nil => exact hi
+  | cons x t ih =>
+    simp only [List.foldl_cons]
+    split
+    · exact ih _ (hc _ _ (hu _ _ hi))
+    · exact ih _ hi
+
+theorem lenInv_unflagC (k : Kernel) (i : Nat) (hi : LenInv k) : LenInv { k with cDel := k.cDel.set i false } :=
+  lenInv_of_shape k _ hi rfl rfl rfl rfl rfl rfl rfl (by simp) rfl rfl rfl rfl rfl rfl rfl
+theorem lenInv_unflagF (k : Kernel) (i : Nat) (hi : LenInv k) : LenInv { k with fDel := k.fDel.set i false } :=
+  lenInv_of_shape k _ hi rfl rfl rfl rfl rfl rfl (by simp) rfl rfl rfl rfl rfl rfl rfl rfl
+theorem lenInv_unflagE (k : Kernel) (i : Nat) (hi : LenInv k) : LenInv { k with eDel := k.eDel.set i false } :=
+  lenInv_of_shape k _ hi rfl rfl rfl rfl rfl (by simp) rfl rfl rfl rfl rfl rfl rfl rfl rfl
+theorem lenInv_unflagV (k : Kernel) (i : Nat) (hi : LenInv k) : LenInv { k with vDel := k.vDel.set i false } :=
+  lenInv_of_shape k _ hi rfl rfl rfl rfl (by simp) rfl rfl rfl rfl rfl rfl rfl rfl rfl rfl
+
+theorem lenInv_withNDelC (k : Kernel) (n : Nat) (h : LenInv k) : LenInv { k with nDelC := n } :=
+  lenInv_of_shape k _ h rfl rfl rfl rfl rfl rfl rfl rfl rfl rfl rfl rfl rfl rfl rfl
+theorem lenInv_withNDelF (k : Kernel) (n : Nat) (h : LenInv k) : LenInv { k with nDelF := n } :=
+  lenInv_of_shape k _ h rfl rfl rfl rfl rfl rfl rfl rfl rfl rfl rfl rfl rfl rfl rfl
+theorem lenInv_withNDelE (k : Kernel) (n : Nat) (h : LenInv k) : LenInv { k with nDelE := n } :=
+  lenInv_of_shape k _ h rfl rfl rfl rfl rfl rfl rfl rfl rfl rfl rfl rfl rfl rfl rfl
+theorem lenInv_withNDelV (k : Kernel) (n : Nat) (h : LenInv k) : LenInv { k with nDelV := n } :=
+  lenInv_of_shape k _ h rfl rfl rfl rfl rfl rfl rfl rfl rfl rfl rfl rfl rfl rfl rfl
+theorem lenInv_withDeferred (k : Kernel) (b : Bool) (h : LenInv k) : LenInv { k with deferred := b } :=
+  lenInv_of_shape k _ h rfl rfl rfl rfl rfl rfl rfl rfl rfl rfl rfl rfl rfl rfl rfl
+
+theorem lenInv_gcCells (k : Kernel) (hi : LenInv k) : LenInv (gcCells k) := by
+  unfold gcCells
+  have := gcSweep_lenInv cDeleted (fun k i => { k with cDel := k.cDel.set i false }) deleteCellCore
+    lenInv_unflagC lenInv_deleteCellCore k k.nC hi
+  exact lenInv_withNDelC _ 0 this
+theorem lenInv_gcFaces (k : Kernel) (hi : LenInv k) : LenInv (gcFaces k) := by
+  unfold gcFaces
+  have := gcSweep_lenInv fDeleted (fun k i => { k with fDel := k.fDel.set i false }) deleteFaceCore
+    lenInv_unflagF lenInv_deleteFaceCore k k.nF hi
+  exact lenInv_withNDelF _ 0 this
+theorem lenInv_gcEdges (k : Kernel) (hi : LenInv k) : LenInv (gcEdges k) := by
+  unfold gcEdges
+  have := gcSweep_lenInv eDeleted (fun k i => { k with eDel := k.eDel.set i false }) deleteEdgeCore
+    lenInv_unflagE lenInv_deleteEdgeCore k k.nE hi
+  exact lenInv_withNDelE _ 0 this
+
+/-- the vertex sweep hands only in-range handles to `delete_vertex_core`: the remaining indices
+    are strictly below the current vertex count (descending processing order) -/
+theorem gcSweepV_lenInv (k : Kernel) (xs : List Nat) (hi : LenInv k)
+    (hs : xs.Pairwise (· > ·)) (hb : ∀ x ∈ xs, x < k.nV) :
+    LenInv (xs.foldl (fun k i => if k.vDeleted i then deleteVertexCore { k with vDel := k.vDel.set i false } i else k) k) := by
+  induction xs generalizing k with
+  | nil => exact hi
+  | cons x t ih =>
+    simp only [List.foldl_cons]
+    have hx : x < k.nV := hb x (by simp)
+    have ht := (List.pairwise_cons.mp hs)
+    split
+    · apply ih
+      · exact lenInv_deleteVertexCore _ _ (lenInv_unflagV k x hi) hx
+      · exact ht.2
+      · intro y hy
+        have hyx : y < x := ht.1 y hy
+        rw [deleteVertexCore_nV]
+        split <;> simp <;> omega
+    · exact ih k hi ht.2 (fun y hy => hb y (by simp [hy]))
+
+theorem lenInv_gcVerts (k : Kernel) (hi : LenInv k) : LenInv (gcVerts k) := by
+  unfold gcVerts gcSweep
+  have hs : (List.range k.nV).reverse.Pairwise (· > ·) := by
+    rw [List.pairwise_reverse]
+    exact List.pairwise_lt_range
+  have := gcSweepV_lenInv k (List.range k.nV).reverse hi hs (by intro x hx; simpa using hx)
+  exact lenInv_withNDelV _ 0 this
+
+theorem lenInv_collectGarbage (k : Kernel) (hi : LenInv k) : LenInv k.collectGarbage := by
+  unfold collectGarbage
+  split
+  · exact hi
+  · have h0 : LenInv { k with deferred := false } := lenInv_withDeferred k false hi
+    have := lenInv_gcVerts _ (lenInv_gcEdges _ (lenInv_gcFaces _ (lenInv_gcCells _ h0)))
+    exact lenInv_withDeferred _ true this
+
+theorem lenInv_enableDeferred (k : Kernel) (b : Bool) (hi : LenInv k) : LenInv (k.enableDeferred b) := by
+  unfold enableDeferred
+  split
+  · exact lenInv_withDeferred _ b (lenInv_collectGarbage k hi)
+  · exact lenInv_withDeferred _ b hi
+
+/-! ### incidence toggles, clear -/
+theorem computeVBU_length (k : Kernel) : k.computeVBU.length = k.nV := by
+  unfold computeVBU
+  rw [foldl_length_inv]
+  · simp
+  · intro l x; simp
+
+theorem computeEBU_length (k : Kernel) : k.computeEBU.length = k.nHE := by
+  unfold computeEBU
+  rw [foldl_length_inv]
+  · simp
+  · intro l f
+    exact foldl_length_inv _ (by intro l' h; simp) _ _
+
+theorem computeFBU_length (k : Kernel) : k.computeFBU.length = k.nHF := by
+  unfold computeFBU
+  rw [foldl_length_inv]
+  · simp
+  · intro l c
+    exact foldl_length_inv _ (by intro l' hf; show (if l'.getD hf none == none then l'.set hf (some c) else l').length = l'.length; split <;> simp) _ _
+
+theorem reorderAll_frame (k : Kernel) :
+    (k.reorderAll).incHfs.length = k.incHfs.length ∧ (k.reorderAll).nV = k.nV ∧ (k.reorderAll).edges = k.edges ∧
+    (k.reorderAll).faces = k.faces ∧ (k.reorderAll).cells = k.cells ∧ (k.reorderAll).vDel = k.vDel ∧
+    (k.reorderAll).eDel = k.eDel ∧ (k.reorderAll).fDel = k.fDel ∧ (k.reorderAll).cDel = k.cDel ∧
+    (k.reorderAll).vBU = k.vBU ∧ (k.reorderAll).eBU = k.eBU ∧ (k.reorderAll).fBU = k.fBU ∧
+    (k.reorderAll).outHes = k.outHes ∧ (k.reorderAll).incCell = k.incCell ∧ (k.reorderAll).props = k.props := by
+  unfold reorderAll; simp
+
+theorem lenInv_reorderAll (k : Kernel) (hi : LenInv k) : LenInv k.reorderAll := by
+  have f := reorderAll_frame k
+  exact lenInv_of_shape k _ hi f.2.1 (by rw [f.2.2.1]) (by rw [f.2.2.2.1]) (by rw [f.2.2.2.2.1]) (by rw [f.2.2.2.2.2.1])
+    (by rw [f.2.2.2.2.2.2.1]) (by rw [f.2.2.2.2.2.2.2.1]) (by rw [f.2.2.2.2.2.2.2.2.1]) f.2.2.2.2.2.2.2.2.2.1
+    f.2.2.2.2.2.2.2.2.2.2.1 f.2.2.2.2.2.2.2.2.2.2.2.1 (by rw [f.2.2.2.2.2.2.2.2.2.2.2.2.1]) f.1
+    (by rw [f.2.2.2.2.2.2.2.2.2.2.2.2.2.1]) f.2.2.2.2.2.2.2.2.2.2.2.2.2.2
+
+theorem lenInv_withEBU (k : Kernel) (hi : LenInv k) (hl : k.incHfs.length = k.nHE) : LenInv { k with eBU := true } :=
+  { vDel := hi.vDel, eDel := hi.eDel, fDel := hi.fDel, cDel := hi.cDel, outHes := hi.outHes
+    incHfs := fun _ => hl, incCell := hi.incCell
+    pv := hi.pv, pe := hi.pe, phe := hi.phe, pf := hi.pf, phf := hi.phf, pc := hi.pc }
+
+theorem lenInv_enableVBU (k : Kernel) (b : Bool) (hi : LenInv k) : LenInv (k.enableVBU b) := by
+  unfold enableVBU
+  split
+  · split
+    · exact hi
+    · exact { vDel := hi.vDel, eDel := hi.eDel, fDel := hi.fDel, cDel := hi.cDel
+              outHes := fun _ => computeVBU_length k
+              incHfs := hi.incHfs, incCell := hi.incCell
+              pv := hi.pv, pe := hi.pe, phe := hi.phe, pf := hi.pf, phf := hi.phf, pc := hi.pc }
+  · exact { vDel := hi.vDel, eDel := hi.eDel, fDel := hi.fDel, cDel := hi.cDel
+            outHes := fun h => by simp at h
+            incHfs := hi.incHfs, incCell := hi.incCell
+            pv := hi.pv, pe := hi.pe, phe := hi.phe, pf := hi.pf, phf := hi.phf, pc := hi.pc }
+
+/-- `LenInv` does not look at a cache whose kind is disabled -/
+theorem lenInv_setIncHfs_off (k : Kernel) (l : List (List Nat)) (hi : LenInv k) (he : k.eBU = false) :
+    LenInv { k with incHfs := l } :=
+  { vDel := hi.vDel, eDel := hi.eDel, fDel := hi.fDel, cDel := hi.cDel, outHes := hi.outHes
+    incHfs := fun h => by simp [he] at h
+    incCell := hi.incCell
+    pv := hi.pv, pe := hi.pe, phe := hi.phe, pf := hi.pf, phf := hi.phf, pc := hi.pc }
+
+theorem lenInv_enableEBU (k : Kernel) (b : Bool) (hi : LenInv k) : LenInv (k.enableEBU b) := by
+  unfold enableEBU
+  split
+  · split
+    · exact hi
+    · rename_i he
+      have he' : k.eBU = false := by simpa using he
+      have h1 : LenInv { k with incHfs := k.computeEBU } := lenInv_setIncHfs_off k _ hi he'
+      split
+      · apply lenInv_withEBU _ (lenInv_reorderAll _ h1)
+        have f := reorderAll_frame { k with incHfs := k.computeEBU }
+        rw [f.1]; simp only [nHE]; rw [f.2.2.1]; exact computeEBU_length k
+      · exact lenInv_withEBU _ h1 (computeEBU_length k)
+  · exact { vDel := hi.vDel, eDel := hi.eDel, fDel := hi.fDel, cDel := hi.cDel, outHes := hi.outHes
+            incHfs := fun h => by simp at h
+            incCell := hi.incCell
+            pv := hi.pv, pe := hi.pe, phe := hi.phe, pf := hi.pf, phf := hi.phf, pc := hi.pc }
+
+theorem lenInv_enableFBU (k : Kernel) (b : Bool) (hi : LenInv k) : LenInv (k.enableFBU b) := by
+  unfold enableFBU
+  split
+  · split
+    · exact hi
+    · have h1 : LenInv { k with incCell := k.computeFBU, fBU := true } :=
+        { vDel := hi.vDel, eDel := hi.eDel, fDel := hi.fDel, cDel := hi.cDel, outHes := hi.outHes
+          incHfs := hi.incHfs, incCell := fun _ => computeFBU_length k
+          pv := hi.pv, pe := hi.pe, phe := hi.phe, pf := hi.pf, phf := hi.phf, pc := hi.pc }
+      split
+      · exact lenInv_reorderAll _ h1
+      · exact h1
+  · exact { vDel := hi.vDel, eDel := hi.eDel, fDel := hi.fDel, cDel := hi.cDel, outHes := hi.outHes
+            incHfs := hi.incHfs
+            incCell := fun h => by simp at h
+            pv := hi.pv, pe := hi.pe, phe := hi.phe, pf := hi.pf, phf := hi.phf, pc := hi.pc }
+
+theorem lenInv_enableFast (k : Kernel) (b : Bool) (hi : LenInv k) : LenInv (k.enableFast b) :=
+  lenInv_of_shape k _ hi rfl rfl rfl rfl rfl rfl rfl rfl rfl rfl rfl rfl rfl rfl rfl
+
+theorem lenInv_clear (k : Kernel) (b : Bool) (_hi : LenInv k) : LenInv (k.clear b) := by
+  unfold clear
+  exact {
+    vDel := rfl, eDel := rfl, fDel := rfl, cDel := rfl
+    outHes := fun _ => rfl, incHfs := fun _ => rfl, incCell := fun _ => rfl
+    pv := by simpa [resizeC, resizeF, resizeE, resizeV] using colsLen_resize k.props.v 0
+    pe := by simpa [resizeC, resizeF, resizeE, resizeV, nE] using colsLen_resize k.props.e 0
+    phe := by simpa [resizeC, resizeF, resizeE, resizeV, nHE] using colsLen_resize k.props.he (2 * 0)
+    pf := by simpa [resizeC, resizeF, resizeE, resizeV, nF] using colsLen_resize k.props.f 0
+    phf := by simpa [resizeC, resizeF, resizeE, resizeV, nHF] using colsLen_resize k.props.hf (2 * 0)
+    pc := by simpa [resizeC, resizeF, resizeE, resizeV, nC] using colsLen_resize k.props.c 0 }
+
+/-! ### every operation, every history -/
+
+/-- the only argument condition `LenInv` needs: a vertex handed to `delete_vertex` is in range -/
+def OpInRange (k : Kernel) : Op → Prop
+  | .deleteVertex v => v < k.nV
+  | _ => True
+
+theorem lenInv_step (k : Kernel) (op : Op) (hi : LenInv k) (hr : OpInRange k op) : LenInv (k.step op).1 := by
+  cases op with
+  | addVertex => exact lenInv_addVertex k hi
+  | addNVertices n => exact lenInv_addNVertices k n hi
+  | addEdge a b d => exact lenInv_addEdge k a b d hi
+  | addFaceHe c hes => exact lenInv_addFace k hes c hi
+  | addFaceV vs => exact lenInv_addFaceV k vs hi
+  | addCell c hfs => exact lenInv_addCell k hfs c hi
+  | setEdge e a b => exact lenInv_setEdge k e a b hi
+  | setFace f hes => exact lenInv_setFace k f hes hi
+  | setCell c hfs => exact lenInv_setCell k c hfs hi
+  | deleteVertex v => exact lenInv_deleteVertex k v hi hr
+  | deleteEdge e => exact lenInv_deleteEdge k e hi
+  | deleteFace f => exact lenInv_deleteFace k f hi
+  | deleteCell c => exact lenInv_deleteCell k c hi
+  | swapVertex a b => exact lenInv_swapVertex k a b hi
+  | swapEdge a b => exact lenInv_swapEdge k a b hi
+  | swapFace a b => exact lenInv_swapFace k a b hi
+  | swapCell a b => exact lenInv_swapCell k a b hi
+  | collectGarbage => exact lenInv_collectGarbage k hi
+  | enableDeferred b => exact lenInv_enableDeferred k b hi
+  | enableFast b => exact lenInv_enableFast k b hi
+  | enableBU kind b =>
+    simp only [step]
+    split
+    · exact lenInv_enableVBU k b hi
+    · split
+      · exact lenInv_enableEBU k b hi
+      · exact lenInv_enableFBU k b hi
+  | clear p => exact lenInv_clear k p hi
+
+/-- a history whose `delete_vertex` arguments are in range at the time of the call -/
+def HistoryInRange : Kernel → List Op → Prop
+  | _, [] => True
+  | k, op :: t => OpInRange k op ∧ HistoryInRange (k.step op).1 t
+
+/-- **every reachable state has one slot per entity** in every flag array, enabled cache and
+    property column — all modes, all incidence subsets, any arguments -/
+theorem lenInv_run (k : Kernel) (ops : List Op) (hi : LenInv k) (hr : HistoryInRange k ops) : LenInv (k.run ops) := by
+  induction ops generalizing k with
+  | nil => exact hi
+  | cons op t ih =>
+    simp only [run, List.foldl_cons]
+    exact ih _ (lenInv_step k op hi hr.1) hr.2
+
 end Kernel
 end OVM
